@@ -6,6 +6,9 @@ use std::time::{Duration, Instant};
 pub struct Pty {
     pub master: RawFd,
     pub path: String,
+    /// a second descriptor on the slave side, opened before the library opens the device: never read from, only asked
+    /// how much input the library has not taken yet and whether the library has configured the line
+    probe: RawFd,
 }
 
 pub fn open_pty() -> Option<Pty> {
@@ -19,7 +22,8 @@ pub fn open_pty() -> Option<Pty> {
             return None;
         }
         let path = std::ffi::CStr::from_ptr(buf.as_ptr()).to_string_lossy().to_string();
-        Some(Pty { master: m, path })
+        let probe = libc::open(buf.as_ptr(), libc::O_RDONLY | libc::O_NOCTTY | libc::O_NONBLOCK);
+        Some(Pty { master: m, path, probe })
     }
 }
 
@@ -49,9 +53,75 @@ impl Pty {
     }
 }
 
+impl Pty {
+    /// bytes written to the bus that the device's reader has not taken yet (0 when unknown)
+    pub fn slave_pending(&self) -> usize {
+        if self.probe < 0 {
+            return 0;
+        }
+        let mut n: libc::c_int = 0;
+        let rc = unsafe { libc::ioctl(self.probe, libc::FIONREAD, &mut n) };
+        if rc == 0 && n > 0 {
+            n as usize
+        } else {
+            0
+        }
+    }
+    /// has the device been put into raw mode (no line discipline processing, no echo) -- what tokio_serial does on open
+    pub fn slave_is_raw(&self) -> bool {
+        if self.probe < 0 {
+            return true;
+        }
+        unsafe {
+            let mut t: libc::termios = std::mem::zeroed();
+            if libc::tcgetattr(self.probe, &mut t) != 0 {
+                return true;
+            }
+            t.c_lflag & (libc::ICANON | libc::ECHO) == 0
+        }
+    }
+    /// wait (bounded) until the library has opened and configured the device
+    pub fn wait_configured(&self, bound: Duration) -> bool {
+        let t0 = Instant::now();
+        while !self.slave_is_raw() && t0.elapsed() < bound {
+            std::thread::sleep(Duration::from_millis(2));
+        }
+        self.slave_is_raw()
+    }
+    /// Wait until the bus is quiet.  First (bounded) until the device's reader has taken everything that was put on
+    /// the bus -- a loaded machine may take long to schedule it --, then until neither `progress` (the trace) nor the bus
+    /// has moved for `quiet`; a sleep of this thread that overshoots badly means the machine is busy and restarts the
+    /// window, since the library's threads were then probably held up as well.
+    pub fn until_quiet(&self, progress: &dyn Fn() -> u64, quiet: Duration, got: &mut Vec<u8>) {
+        let t0 = Instant::now();
+        while self.slave_pending() > 0 && t0.elapsed() < Duration::from_secs(15) {
+            self.read_some(got);
+            std::thread::sleep(Duration::from_millis(1));
+        }
+        let mut last = progress();
+        let mut since = Instant::now();
+        while since.elapsed() < quiet && t0.elapsed() < Duration::from_secs(20) {
+            let n = self.read_some(got);
+            let p = progress();
+            if n > 0 || p != last || self.slave_pending() > 0 {
+                last = p;
+                since = Instant::now();
+            }
+            let s0 = Instant::now();
+            std::thread::sleep(Duration::from_millis(2));
+            if s0.elapsed() > Duration::from_millis(25) {
+                since = Instant::now();
+            }
+        }
+    }
+}
+
 impl Drop for Pty {
     fn drop(&mut self) {
         unsafe {
+            if self.probe >= 0 {
+                libc::close(self.probe);
+            }
             libc::close(self.master);
         }
     }
